@@ -24,7 +24,8 @@ from common import coq_list, coq_eval_shards
 
 PRE = "From S2T Require Import Lib.PyStr C02.Xml C02.Pptx C02.Odp.\nFrom Coq Require Import ZArith.\n"
 PROPS_EXPECTED = ["C02_odp_frames_once", "C02_odp_each_frame_once", "C02_odp_position_order",
-                  "C02_odp_ties_document_order", "C02_odp_direct_children_refuted", "C02_odp_iter_everywhere_refuted"]
+                  "C02_odp_ties_document_order", "C02_odp_direct_children_refuted", "C02_odp_iter_everywhere_refuted",
+                  "C02_odp_grouping_each_once", "C02_odp_grouping_order_partial", "C02_odp_grouping_order_refuted"]
 BASE = 0x4E00
 
 EXPECTED_ITER = textwrap.dedent("""\
@@ -92,7 +93,7 @@ def flat(shapes):
 def run_part(ctx):
     from props.c02 import coq_results, parse_strings, with_decls, encode_part, pick_encoding
     from sharepoint2text.parsing.extractors.open_office import odp_extractor as OP
-    ctx.prove("C02/PropsOdp.v", ["C02/Odp.vo"], expected=PROPS_EXPECTED)
+    ctx.prove("C02/PropsOdp.v", ["C02/Odp.vo", "C02/OdpGroup.vo"], expected=PROPS_EXPECTED)
 
     # ---- X: the code has the modelled shape (fail closed)
     try:
@@ -180,3 +181,71 @@ def run_part(ctx):
     ctx.obligation("correspondence:odp odp_order model == token order of read_odp(...).get_full_text()", ok and not failing,
                    (f"{len(failing)} disagreements; first: got={info[failing[0]][1]} xml={info[failing[0]][0][:600]} " if failing else "") + log[:600])
     ctx.extra["odp_frames"] = {"slides": len(cases)}
+
+
+    # ---- title / body / other grouping (OdpSlide.text_combined): model C02/OdpGroup.v
+    grouping_part(ctx, OP, decls, encode_part)
+
+
+STYLES = ["", "", "P1", "Title", "TitleText", "MyTitle2", "Body", "BodyText", "OutlineBody1", "Standard", "SubtitleBody"]
+
+
+def grouping_part(ctx, OP, decls, encode_part):
+    import inspect as _inspect
+    from sharepoint2text.parsing.extractors import data_types as DT
+    rng = ctx.rng
+    es = ast.unparse(ast.parse(textwrap.dedent(_inspect.getsource(OP._extract_slide))))
+    chain = ("if not found_title and ('Title' in style_name or style_name == 'TitleText'):\n"
+             "                    slide.title = text\n                    found_title = True\n"
+             "                elif 'Body' in style_name or style_name == 'BodyText':\n"
+             "                    slide.body_text.append(text)\n                else:\n"
+             "                    slide.other_text.append(text)")
+    tc = ast.unparse(ast.parse(textwrap.dedent(_inspect.getsource(DT.OdpSlide.text_combined.fget))))
+    ctx.obligation("odp-shape:title/body/other classification chain and OdpSlide.text_combined have the modelled shape",
+                   " ".join(chain.split()) in " ".join(es.split()) and "parts.append(self.title)" in tc and "parts.extend(self.body_text)" in tc
+                   and "parts.extend(self.other_text)" in tc and tc.index("self.title)") < tc.index("self.body_text") < tc.index("self.other_text"),
+                   "classification chain or text_combined changed")
+    cases, info = [], []
+    tid = 0
+    for _ in range(ctx.n(120, 1500)):
+        paras, frames = [], ""
+        for fi in range(rng.randint(1, 3)):
+            ps = ""
+            for _ in range(rng.randint(1, 3)):
+                tid += 1
+                st = rng.choice(STYLES)
+                paras.append((("Title" in st or st == "TitleText"), ("Body" in st or st == "BodyText"), tid % 900, st))
+                ps += f'<text:p text:style-name="{st}">&#{0x4E00 + tid % 900};</text:p>' if st else f"<text:p>&#{0x4E00 + tid % 900};</text:p>"
+            frames += f'<draw:frame svg:x="1cm" svg:y="{1 + fi}cm" svg:width="5cm" svg:height="1cm"><draw:text-box>{ps}</draw:text-box></draw:frame>'
+        content = (f'<office:document-content{decls}><office:body><office:presentation><draw:page>{frames}</draw:page>'
+                   '</office:presentation></office:body></office:document-content>')
+        b = io.BytesIO()
+        with zipfile.ZipFile(b, "w") as z:
+            z.writestr("mimetype", "application/vnd.oasis.opendocument.presentation")
+            z.writestr("META-INF/manifest.xml", '<?xml version="1.0"?><manifest:manifest xmlns:manifest="urn:oasis:names:tc:opendocument:xmlns:manifest:1.0">'
+                       '<manifest:file-entry manifest:full-path="/" manifest:media-type="application/vnd.oasis.opendocument.presentation"/></manifest:manifest>')
+            z.writestr("content.xml", encode_part(content, "ascii-refs"))
+        styled = any(t or bd for t, bd, _, _ in paras)
+        ctx.case(("odp-grouping", tuple(paras)), len(paras) >= 3, "odp-grouping:" + ("styled" if styled else "plain"))
+        try:
+            got = next(OP.read_odp(io.BytesIO(b.getvalue()))).get_full_text()
+        except Exception as e:  # noqa
+            ctx.finding("odp:raises", f"read_odp raised {type(e).__name__}: {e}", {"format": "odp", "frames": frames})
+            continue
+        ids = [ord(c) - 0x4E00 for c in got if not c.isspace()]
+        want_ids = [i for _, _, i, _ in paras]
+        cases.append("(" + coq_list([f"({'true' if t else 'false'}, {'true' if bd else 'false'}, {i}%N)" for t, bd, i, _ in paras]) +
+                     ", [" + ";".join(map(str, ids)) + "]%N)")
+        info.append((frames, ids))
+        rep = {"format": "odp", "frames": frames, "expected_ids_in_source_order": want_ids, "got_ids": ids}
+        if sorted(ids) != sorted(want_ids):
+            ctx.finding("odp:grouping-loses-or-duplicates-paragraph", "ODP get_full_text(): a paragraph is lost or duplicated by the "
+                        "title/body/other assembly", rep)
+        elif not styled and ids != want_ids:
+            ctx.finding("odp:unstyled-paragraph-order", "ODP get_full_text(): paragraphs without title/body style are not in source order", rep)
+    ok, failing, log = coq_eval_shards(ctx, "odp_group", "From S2T Require Import C02.Pptx C02.OdpGroup.\nFrom Coq Require Import List NArith.\nImport ListNotations.\n",
+                                       "corr_group", cases, shard=400, ty="list (bool * bool * N) * list N")
+    ctx.traces += len(cases)
+    ctx.disagreements += len(failing)
+    ctx.obligation("correspondence:odp text_combined model == token order of get_full_text() over styled paragraphs", ok and not failing,
+                   (f"{len(failing)} disagreements; first: got={info[failing[0]][1]} frames={info[failing[0]][0][:500]} " if failing else "") + log[:500])
